@@ -22,14 +22,16 @@ ANCHOR_FILES = _simp.ANCHOR_FILES
 ASSUMPTIONS = ['vt.refsem truth tables for the equivalence predicate; Circuit.__eq__ (gates, inputs, outputs) for pipeline equality']
 REQUIRED = {'mon:transform.checked': 300, 'effect:RRG': 50, 'effect:RRG_in': 50, 'effect:MDG': 50, 'effect:MEG': 50,
             'effect:MUO': 50, 'muo_all_negations': 20, 'muo_all_buffers': 20, 'rrg_idempotence': 50,
-            'pipeline_vs_manual': 100, 'cleanup_vs_manual': 50}
+            'pipeline_vs_manual': 100, 'cleanup_vs_manual': 50, 'deep_circuits': 2}
 
 
 def shards(tier, seed):
     per = 300 if tier == 'quick' else 8000
     budget = 45 if tier == 'quick' else 540
     return [{'kind': 'random', 'count': per, 'budget_s': budget, 'max_g': 12 if tier == 'quick' else 30,
-             'max_in': 5 if tier == 'quick' else 6} for _ in range(16)]
+             'max_in': 5 if tier == 'quick' else 6} for _ in range(16)] + [
+        {'kind': 'deep', 'count': 2 if tier == 'quick' else 20, 'budget_s': budget,
+         'depths': netgen.DEEP_QUICK if tier == 'quick' else netgen.DEEP_THOROUGH}]
 
 
 def _manual(c, leaves):
@@ -44,6 +46,8 @@ def check_case(case, ctx):
     from cirbo.minimization.simplification import cleanup
     _simp.CUR['case'] = case
     net = netgen.from_description(case['net'])
+    if 'deep' in case['net']:
+        ctx.count('deep_circuits')
     rng = random.Random(case['rseed'])
     with monitor.suspended():
         try:
@@ -132,8 +136,11 @@ def gen_case(rng, spec):
     calls.append(['transform', ['pipe', 'RRG', 'RRG_in', 'RRG_in', 'MDG', 'RRG']])
     calls.append(['cleanup', False])
     calls.append(['cleanup', True])
-    return {'kind': 'random', 'shape': shape, 'net': netgen.describe(net), 'rseed': rng.getrandbits(32),
+    case = {'kind': 'random', 'shape': shape, 'net': netgen.describe(net), 'rseed': rng.getrandbits(32),
             'shuffle': rng.random() < 0.25, 'calls': calls, 'edited': rng.random() < 0.3}
+    if spec.get('kind') == 'deep':   # a long dependency chain instead (ripple / iterated constructions)
+        case.update(net=netgen.deep_description(rng, spec['depths']), shape='deep', shuffle=False, edited=False)
+    return case
 
 
 def run_shard(spec, ctx):
